@@ -13,7 +13,7 @@ def cleanup():
 
 def native_flags():
     v, sv = V.lib_version()
-    return ["-std=gnu++11", "-O0", "-g", "-fsanitize=address,undefined", "-fno-omit-frame-pointer", "-DNDEBUG",
+    return ["-std=gnu++11", "-O0", "-g", "-fsanitize=address,undefined,float-cast-overflow", "-fno-omit-frame-pointer", "-DNDEBUG",
             "-DLIBVERSION=\"%s\"" % v, "-DLIBSOVERSION=\"%s\"" % sv, "-DLIB_DLL_EXPORTS", "-DBLOC_VERIF", "-DVX_NATIVE",
             "-I" + V.REPO, "-I" + os.path.join(V.REPO, "blocc"), "-I" + V.HARNESS_DIR, "-I" + V.MODEL_DIR, "-w"]
 
